@@ -1,10 +1,10 @@
-\* quick: 2 calls x 2 connections, 1 drop
+\* quick: 3 calls x 1 connection, 1 noise packet
 CONSTANTS
-  Calls = {c1, c2}
-  NConns = 2
+  Calls = {c1, c2, c3}
+  NConns = 1
   Unknown = unk
-  MaxDrops = 1
-  MaxNoise = 0
+  MaxDrops = 0
+  MaxNoise = 1
   MaxSilence = 0
   StrictRst = TRUE
   MaxBacklog = 3
